@@ -559,8 +559,10 @@ pub fn check(id: &str, tier: Tier) -> i32 {
         "wall_s": wall,
         "violations": violations.len(),
     });
-    let _ = std::fs::create_dir_all(format!("{}/evidence", VERIF_ROOT));
-    let epath = format!("{}/evidence/{}.json", VERIF_ROOT, id);
+    // registered commands always write /verif/evidence/<id>.json; VERIF_EVIDENCE_DIR is an exploration aid
+    let edir = std::env::var("VERIF_EVIDENCE_DIR").unwrap_or_else(|_| format!("{}/evidence", VERIF_ROOT));
+    let _ = std::fs::create_dir_all(&edir);
+    let epath = format!("{}/{}.json", edir, id);
     let _ = std::fs::write(&epath, serde_json::to_string_pretty(&evidence).unwrap() + "\n");
 
     // 5. report
